@@ -7,6 +7,7 @@ from .translate import tr_expand, cpp_value
 from .tr_output import tr_output, tr_errors
 from .tr_config import tr_config
 from .tr_filter import tr_filter
+from .tr_ds import tr_ds
 from .syslevel import build_prod, run_script, per_call, call_line, run_many
 
 SINKS = ["sink\tfile\tout\t@D@/out.log", "sink\tfile\tout2\t@D@/out-T.log", "sink\tpipe\tso\t1", "sink\tpipe\tse\t2",
@@ -25,6 +26,8 @@ def translate_all(run, have=()):
         tr_config(run)
     if not os.path.exists(os.path.join(run.gen, "Gen_Filter.v")):
         tr_filter(run)
+    if not os.path.exists(os.path.join(run.gen, "Gen_Ds.v")):
+        tr_ds(run)
     ex = run.consts["expand"]
     filt = cpp_value(run, "SNOOPY_FILTERING_ENABLED", includes=("snoopy.h",))
     run.write_gen("Gen_Sys.v", "(* GENERATED from the current /repo working tree by vlib/sysmodel.py -- do not edit *)\n"
@@ -39,7 +42,7 @@ def build_model(run):
     """compile Gen_*.v (if coq_props has not done so) and the per-run extraction; returns the driver executable"""
     d = os.path.join(run.scratch, "sysmodel")
     os.makedirs(d, exist_ok=True)
-    for g in ("Gen_Config", "Gen_Filter", "Gen_Expand", "Gen_Cmdline", "Gen_Output", "Gen_Errors", "Gen_Sys"):
+    for g in ("Gen_Config", "Gen_Filter", "Gen_Expand", "Gen_Cmdline", "Gen_Output", "Gen_Errors", "Gen_Sys", "Gen_Ds"):
         if not os.path.exists(os.path.join(run.gen, g + ".vo")):
             p = sh(["timeout", "300", "coqc", "-q", "-Q", THEORIES, "Snoopy", "-Q", run.gen, "Gen", os.path.join(run.gen, g + ".v")], check=False)
             if p.returncode != 0:
@@ -228,4 +231,90 @@ def whole_run_stream(run, lib, exe, nproc, ncalls, violation, tag="sys", rewrite
                 {"failing_input": {"ini": (inibytes(p, "@D@", k) or b"(no file)").decode(errors="replace"), "call_index": k, "history_inis": [(inibytes(p, "@D@", j) or b"(no file)").decode(errors="replace") for j in range(k + 1)] if rewrite else None},
                  "script": script, "call_index": k, "stream": "system",
                  "expected": {s: [x[:200] for x in v] for s, v in expected.items()}, "observed": {s: [x[:200] for x in v] for s, v in got.items()}, "late": late})
+    return ncmp, distinct
+
+
+# ------------------------------------------------------------------------------------ default format / process-state data sources
+def default_format_stream(run, lib, exe, nproc, ncalls, violation, tag="sysd", sigprefix="sysd"):
+    """whole runs whose message format uses the process-state data sources of C12 (the compiled-in default format when the file
+    sets none, and formats over uid euid gid egid pid ppid sid tid_kernel username eusername group egroup cwd hostname tty env
+    env_all filename cmdline): the composed model with DsTruth.eval_ds over Gen_Ds (System/Full.v) vs the production wrapper.
+    The caller's process state is known to the harness: root ids, pid from the recorder, sid = pgid = pid (the caller called
+    setsid()), stdin on /dev/null, cwd = the run directory."""
+    import socket
+    rng = run.rng
+    host = socket.gethostname().encode()
+    fmts = [None, None, b"[uid:%{uid} sid:%{sid} tty:%{tty} cwd:%{cwd} filename:%{filename}]: %{cmdline}",
+            b"%{uid}/%{euid} %{gid}/%{egid} %{username}/%{eusername} %{group}/%{egroup} p=%{pid} pp=%{ppid} s=%{sid} t=%{tid_kernel}",
+            b"h=%{hostname} cwd=%{cwd} tty=%{tty} A=%{env:A} e=%{env_all} f=%{filename} c=%{cmdline}", b"%{snoopy_literal:x}%{tty_uid}|%{tty_username}|%{env:NOPE}"]
+    procs = []
+    for i in range(nproc):
+        fmt = fmts[i % len(fmts)]
+        out = rng.choice([b"file:@D@/out.log", b"stdout", b"devlog", b"socket:@D@/s.sock", b"stderr"])
+        ini = [b"[snoopy]", b"output = " + out] + ([b"message_format = \"" + fmt + b"\""] if fmt is not None else []) + \
+              ([b"datasource_message_max_length = " + rng.choice([b"255", b"300"])] if rng.random() < 0.3 else [])
+        procs.append({"ini": ini, "calls": gen_calls(rng, ncalls, 255), "env": [b"A=va lue", b"EMPTY=", b"PATH=/bin"]})
+
+    def inibytes(p, d):
+        return (b"\n".join(p["ini"]) + b"\n").replace(b"@D@", d.encode())
+
+    def job(i):
+        p = procs[i]
+        d = os.path.join(run.scratch, "sys-%s-%d" % (tag, i))
+        script = list(SINKS) + ["ini\t" + hexs(inibytes(p, d)), "env\t" + hexlist(p["env"])]
+        for (api, path, argv) in p["calls"]:
+            script.append(call_line(api, path, argv, list(p["env"]) if api == "execve" else None, 0, -1, 2))
+        return (i, d, script, run_script(run, lib, script, "%s-%d" % (tag, i), timeout=120))
+    outs = run_many(job, range(nproc), workers=8)
+    cases, idx = [], []
+    mypid = os.getpid()
+    for (i, d, script, r) in outs:
+        p = procs[i]
+        pcs = per_call(r["records"])
+        nopty = any(f[0] == "note" and len(f) > 1 and f[1] == "no-pty" for f in r["records"])
+        for k, (api, path, argv) in enumerate(p["calls"]):
+            real = pcs.get(k, {}).get("real", [])
+            pid = real[0][7] if real and len(real[0]) > 7 else "0"
+            if nopty or pid == "0":
+                continue
+            ids = ",".join(["0"] * 6 + [pid, str(mypid), pid, pid, "1", pid, "0", "0"])
+            cases.append("\t".join(["sysfull", hexs(inibytes(p, d)), ids, hexs(d.encode()), hexs(host), "0:E:25", hexlist(p["env"]),
+                                    "0:" + b"root".hex(), "0:" + b"root".hex(), hexs(path), hexlist(argv), "0"]))
+            idx.append((i, k))
+    pred = run_model(exe, cases) if cases else []
+    byproc = {i: (d, script, r) for (i, d, script, r) in outs}
+    ncmp, distinct = 0, set()
+    for n, (i, k) in enumerate(idx):
+        p = procs[i]
+        d, script, r = byproc[i]
+        if r["status"] != 0:
+            continue
+        f = pred[n].split("\t")
+        if f[0] != "ok":
+            violation(sigprefix + ":model-fault", "correspondence", "the composed model faults (%s)" % f[0], {"script": script, "call_index": k, "stream": "system-full"})
+            continue
+        sinkmap = {("0", (d + "/out.log").encode()): "out", ("1", b"1"): "so", ("1", b"2"): "se", ("2", (d + "/s.sock").encode()): "sock", ("2", b"/dev/log"): "devlog"}
+        expected = {}
+        for j in range(int(f[1])):
+            key = sinkmap.get((f[2 + 3 * j], bytes.fromhex(f[3 + 3 * j]) if f[3 + 3 * j] != "-" else b""), "?")
+            expected.setdefault(key, []).append(f[4 + 3 * j] if f[4 + 3 * j] != "-" else "")
+        for nm in ("out", "so", "se"):
+            if nm in expected:
+                expected[nm] = ["".join(expected[nm])]
+        c = per_call(r["records"]).get(k, {"sinks": {}})
+        got = {}
+        for (nm, hx) in c["sinks"].get("at-exec", []):
+            if hx not in ("-", "~"):
+                got.setdefault(nm, []).append(hx)
+        for nm in ("out", "so", "se"):
+            if nm in got:
+                got[nm] = ["".join(got[nm])]
+        ncmp += 1
+        distinct.add((i % len(fmts), tuple(sorted(expected))))
+        if got != expected:
+            violation(sigprefix + ":records", "spec_violation",
+                      "record differs from the composed model with the process-state data sources (format %r): expected %s, observed %s" % (
+                          (fmts[i % len(fmts)] or b"<compiled-in default>")[:60], {s: [bytes.fromhex(x)[:120] for x in v] for s, v in expected.items()},
+                          {s: [bytes.fromhex(x)[:120] for x in v] for s, v in got.items()}),
+                      {"failing_input": {"ini": inibytes(p, "@D@").decode(errors="replace"), "call_index": k}, "script": script, "call_index": k, "stream": "system-full"})
     return ncmp, distinct
